@@ -637,6 +637,15 @@ func (r *runner) calculateNextTasks(ctx context.Context, completedTasks []*task,
 	if len(nodeMap) > 0 {
 		// Check if we've reached the END node.
 		if v, ok := nodeMap[END]; ok {
+			// The run returns now. The nodes that became ready together with END are never started, and
+			// the nodes still waiting for a predecessor never will be: nobody is going to read the inputs
+			// prepared for them.
+			for key, in := range nodeMap {
+				if key != END {
+					closeIfStream(in)
+				}
+			}
+			cm.discardParked()
 			return nil, v, true, nil
 		}
 
